@@ -347,6 +347,106 @@ def _init_seed_table(ds_tree) -> dict[str, bool]:
     return t
 
 
+def _select_table(init: ast.FunctionDef, pattern: str, root_name: str, has_regex: bool) -> tuple[dict[str, bool], bool]:
+    """structure of the file selection at the top of `__init__`; also returns whether the directory listing is sorted"""
+    t: dict[str, bool] = {}
+    top = next((s for s in init.body if isinstance(s, ast.If) and _txt(s.test) == "filenames_filterisNone"), None)
+    t["filter_none_test"] = top is not None
+    if top is None:
+        raise Untranslatable("`if filenames_filter is None:` not found")
+    t["filter_given_is_used_verbatim"] = any(_txt(x) == "filenames=filenames_filter" for x in top.orelse)
+    inner = next((x for x in top.body if isinstance(x, ast.If) and _txt(x.test) == "filenames_listsisnotNone"), None)
+    t["lists_second"] = inner is not None
+    if inner is None:
+        raise Untranslatable("`if filenames_lists is not None:` not found")
+    guard = next((x for x in inner.body if isinstance(x, ast.If) and _txt(x.test) == "filenames_lists_rootisNone"), None)
+    t["lists_without_root_raise_value_error"] = guard is not None and isinstance(guard.body[-1], ast.Raise) \
+        and "ValueError" in _txt(guard.body[-1])
+    t["lists_read_in_order"] = any(
+        _txt(x) == f"filenames=get_filenames_for_datasets(lists=filenames_lists,files_root=filenames_lists_root,data_root={root_name})"
+        for x in inner.body)
+    glob = f"self.root.glob('{pattern}')"
+    lst = [_txt(x.value) for x in inner.orelse if isinstance(x, ast.Assign) and _txt(x.targets[0]) == "filenames"]
+    t["listing_is_glob_of_root"] = len(lst) == 1 and lst[0] in (f"list({glob})", f"sorted({glob})", f"list(sorted({glob}))")
+    is_sorted = len(lst) == 1 and "sorted(" in lst[0]
+    after = init.body[init.body.index(top) + 1:]
+    t["paths_made_pathlib"] = any(_txt(x) == "filenames=[pathlib.Path(_)for_infilenames]" for x in after)
+    if has_regex:
+        rx = next((x for x in after if isinstance(x, ast.If) and _txt(x.test) == "regex_filter"), None)
+        t["regex_match_on_str_of_path"] = rx is not None and [_txt(x) for x in rx.body] == [
+            "filenames=[_for_infilenamesifre.match(regex_filter,str(_))]"]
+    else:
+        t["no_regex_parameter"] = "regex_filter" not in [a.arg for a in init.args.args]
+    return t, is_sorted
+
+
+def _kwargs_of_super_init(init: ast.FunctionDef) -> dict[str, str]:
+    for n in ast.walk(init):
+        if isinstance(n, ast.Call) and _txt(n.func) == "super().__init__":
+            return {k.arg: _txt(k.value) for k in n.keywords if k.arg}
+    raise Untranslatable("super().__init__(…) not found")
+
+
+def _class_table(h5_tree, ds_tree) -> tuple[dict[str, bool], dict[str, bool]]:
+    t: dict[str, bool] = {}
+    h5i = find_function(h5_tree, "H5SliceData.__init__")
+    call = [n for n in ast.walk(h5i) if isinstance(n, ast.Call) and _txt(n.func) == "self.parse_filenames_data"]
+    t["h5_parse_gets_selected_files_and_slice_data"] = len(call) == 1 and _txt(call[0]) == \
+        "self.parse_filenames_data(filenames,extra_h5s=pass_h5s,filter_slice=slice_data)"
+    t["h5_context_defaults_to_zero"] = any(_txt(x) == "self.kspace_context=kspace_contextifkspace_contextelse0" for x in h5i.body)
+    gi = find_function(h5_tree, "H5SliceData.__getitem__")
+    t["h5_item_reads_data_idx"] = _txt(gi.body[0]) == "filename,slice_no=self.data[idx]"
+    t["h5_sensitivity_map_same_slice_same_name"] = any(
+        "self.get_slice_data(self.sensitivity_maps/filename.name,slice_no)" in _txt(x) for x in ast.walk(gi) if isinstance(x, ast.Assign))
+    t["h5_pass_h5s_same_slice_same_name"] = any(
+        "self.get_slice_data(path/filename.name,slice_no,key=h5_key)" in _txt(x) for x in ast.walk(gi) if isinstance(x, ast.Assign))
+    same = {"filenames_filter": "filenames_filter", "filenames_lists": "filenames_lists", "filenames_lists_root": "filenames_lists_root",
+            "regex_filter": "regex_filter", "root": "data_root", "pass_h5s": "pass_h5s"}
+    for cls in ("FastMRIDataset", "CalgaryCampinasDataset"):
+        kws = _kwargs_of_super_init(find_function(ds_tree, f"{cls}.__init__"))
+        key = "fastmri" if cls.startswith("Fast") else "calgary"
+        t[f"{key}_forwards_selection_arguments"] = all(kws.get(k) == v for k, v in same.items())
+        t[f"{key}_does_not_forward_kspace_context"] = "kspace_context" not in kws
+        if key == "fastmri":
+            t["fastmri_does_not_forward_slice_data"] = "slice_data" not in kws
+        else:
+            t["calgary_slice_data_is_50_minus50_when_cropping"] = kws.get("slice_data") == "slice(50,-50)ifcrop_outer_sliceselseNone"
+        g = find_function(ds_tree, f"{cls}.__getitem__")
+        t[f"{key}_item_is_super_item"] = _txt(g.body[0]) == "sample=super().__getitem__(idx)"
+    # CMRxRecon
+    c: dict[str, bool] = {}
+    pf = find_function(ds_tree, "CMRxReconDataset.parse_filenames_data")
+    loop = next(s for s in pf.body if isinstance(s, ast.For))
+    c["counter_starts_at_zero"] = any(_txt(x) == "current_slice_number=0" for x in pf.body)
+    tr = next(s for s in loop.body if isinstance(s, ast.Try))
+    c["missing_or_unreadable_skipped"] = [_txt(h.type) for h in tr.handlers] == ["FileNotFoundError", "OSError"] and all(
+        isinstance(h.body[-1], ast.Continue) for h in tr.handlers)
+    c["shape_from_kspace_key"] = any(_txt(x) == "kspace_shape=h5py.File(filename,'r')[self.kspace_key].shape" for x in tr.body)
+    br = next(s for s in loop.body if isinstance(s, ast.If) and "kspace_context" in _txt(s.test))
+    c["num_slices_per_context"] = (_txt(br.test) == "self.kspace_contextisNone" and [_txt(x) for x in br.body] == ["num_slices=np.prod(kspace_shape[:2])"]
+                                   and len(br.orelse) == 1 and isinstance(br.orelse[0], ast.If) and _txt(br.orelse[0].test) == "self.kspace_context=='slice'"
+                                   and [_txt(x) for x in br.orelse[0].body] == ["num_slices=kspace_shape[0]"]
+                                   and [_txt(x) for x in br.orelse[0].orelse] == ["num_slices=kspace_shape[1]"])
+    tail = [_txt(x) for x in loop.body[loop.body.index(br) + 1:]]
+    c["append_range_increment"] = tail == ["self.data+=[(filename,slc)forslcinrange(num_slices)]",
+                                           "self.volume_indices[filename]=range(current_slice_number,current_slice_number+num_slices)",
+                                           "current_slice_number+=num_slices"]
+    gs = find_function(ds_tree, "CMRxReconDataset.get_slice_data")
+    br = next(s for s in gs.body if isinstance(s, ast.If) and "kspace_context" in _txt(s.test))
+    c["item_block_per_context"] = (
+        _txt(br.test) == "self.kspace_contextisNone"
+        and [_txt(x) for x in br.body] == [
+            "inds={i:(k,l)fori,(k,l)inenumerate([(k,l)forkinrange(shape[0])forlinrange(shape[1])])}", "ind=inds[slice_no]",
+            "curr_data=np.array(data[key][ind[0]][ind[1]])"]
+        and len(br.orelse) == 1 and isinstance(br.orelse[0], ast.If) and _txt(br.orelse[0].test) == "self.kspace_context=='slice'"
+        and [_txt(x) for x in br.orelse[0].body] == ["curr_data=np.array(data[key][slice_no])"]
+        and [_txt(x) for x in br.orelse[0].orelse] == ["curr_data=np.array(data[key][:,slice_no])"])
+    gi = find_function(ds_tree, "CMRxReconDataset.__getitem__")
+    c["item_reads_data_idx"] = any(_txt(x) == "filename,slice_no=self.data[idx]" for x in gi.body)
+    c["context_axis_second_after_swap"] = any(_txt(x) == "sample['kspace']=np.swapaxes(sample['kspace'],0,1)" for x in ast.walk(gi) if isinstance(x, ast.Assign))
+    return t, c
+
+
 def _lean_bool(b: bool) -> str:
     return "true" if b else "false"
 
@@ -387,6 +487,22 @@ def _c12_extra():
     out.append("/-- structure of `ConcatDataset` -/\n" + _emit_list("concatTable", ct))
     it = table("initSeedTable", lambda: _init_seed_table(ds), {"skipped": True})
     out.append("/-- construction-time seeding of FakeMRIBlobsDataset / SheppLoganDataset -/\n" + _emit_list("initSeedTable", it))
+    sel = table("selectTable", lambda: _select_table(find_function(h5, "H5SliceData.__init__"), "*.h5", "root", True), None)
+    csel = table("cmrSelectTable", lambda: _select_table(find_function(ds, "CMRxReconDataset.__init__"), "*.mat", "data_root", False), None)
+    for nm, res, const in (("selectTable", sel, "listingSorted"), ("cmrSelectTable", csel, "cmrListingSorted")):
+        if res is None:
+            out.append(f"/-- SKIPPED -/\ndef {nm} : List (String × Bool) := [(\"skipped\", true)]\n"
+                       f"def {const} : Bool := Dataset.listingSortedCurrent\n")
+        else:
+            out.append(f"/-- file selection in `__init__` -/\n" + _emit_list(nm, res[0]) +
+                       f"/-- is the directory listing sorted before use? -/\ndef {const} : Bool := {_lean_bool(res[1])}\n")
+    cls = table("classTable", lambda: _class_table(h5, ds), None)
+    if cls is None:
+        out.append("/-- SKIPPED -/\ndef classTable : List (String × Bool) := [(\"skipped\", true)]\n"
+                   "def cmrTable : List (String × Bool) := [(\"skipped\", true)]\n")
+    else:
+        out.append("/-- what FastMRIDataset / CalgaryCampinasDataset hand to H5SliceData; H5SliceData item plumbing -/\n" + _emit_list("classTable", cls[0]))
+        out.append("/-- structure of CMRxReconDataset.parse_filenames_data / get_slice_data -/\n" + _emit_list("cmrTable", cls[1]))
     ft = table("fakeTable", lambda: _fake_table(ds, fk, sn), None)
     if ft is None:
         out.append("/-- SKIPPED -/\ndef fakeTable : Dataset.SeedTable := Dataset.fakeTableCurrent\n")
